@@ -167,10 +167,20 @@ def r4(ctx):
            "every transport read of recv_line asks for exactly 1 byte" if sizes == {"1"} else
            f"recv_line asks the transport for {sorted(sizes)} bytes: frame bytes arriving with the response head would be swallowed by the HTTP parser",
            idx.loc(idx.func("_socket:recv_line").node))
-    # read_headers reads only through recv_line
+    # read_headers reads only through recv_line (decided on the calls that actually happen, however the loop is written)
     q = "_http:read_headers"
-    reads = [text(c.func) for c in idx.calls_in(q) if text(c.func).split(".")[-1] in ("recv", "recv_line", "recv_into", "read", "recv_strict")]
-    ctx.ob(f"{q}:reads-via-recv_line-only", bool(reads) and set(reads) == {"recv_line"}, f"transport reads in read_headers: {reads}", idx.loc(idx.func(q).node))
+
+    def rl(Ix, run, args, kwargs, node):
+        k = len([e for e in run.effects if e.name == "recv_line"])
+        run.effect("recv_line", args, node=node)
+        return Sym(f"line{k}", "bytes")
+
+    Ix = Interp(idx, Config(stubs={"_socket:recv_line": rl, "_logging:trace": lambda *a: NONE}, loop_unroll=3))
+    outs_h = ctx.count_paths(Ix.explore(lambda run: Ix.call(run, Ix.make_fn(run, q), [Sym("sock", "obj")], {}, None)))
+    lines = sum(1 for o in outs_h for e in o.effects if e.name == "recv_line")
+    other = sorted({e.name for o in outs_h for e in o.effects if e.name.startswith(("sock.", "_socket:recv")) or e.name.endswith((".recv", ".read", ".recv_into"))})
+    ctx.ob(f"{q}:reads-via-recv_line-only", lines > 0 and not other, f"{lines} line reads over {len(outs_h)} paths, no other transport read" if lines and not other else
+           f"read_headers performs transport reads {other} besides recv_line ({lines} line reads)", idx.loc(idx.func(q).node))
     # _get_resp_headers / handshake: a direct sock.recv only on raising paths
     def rh(I2, run, args, kwargs, node):
         run.effect("read_headers", args, node=node)
